@@ -461,6 +461,56 @@ class Origins:
 
 # ------------------------------------------------------------------------ program
 
+def resolve_upvars(fn, atoms, deep=True, depth=0):
+    """Rewrite closure-capture atoms (param 1 of a closure body, first step = captured variable) into the atoms of the
+    captured value in the enclosing function, so that a check moved into `.any(|x| ..)` / `.filter(..)` / `.map(..)` is
+    seen with the same origins as the loop it replaced."""
+    if not fn.is_closure() or depth > 3:
+        return atoms
+    prog = fn.prog
+    parent = prog.fns.get(fn.rec.get("parent"))
+    if parent is None:
+        return atoms
+    site = None
+    for bi, si, place, rv, line in parent.assigns(include_cleanup=True):
+        if rv["r"] == "agg" and rv.get("ak") == "closure" and rv.get("adt") == fn.id:
+            site = rv
+            break
+    if site is None:
+        return atoms
+    names = site.get("fields") or []
+    out = set()
+    pog = parent.origins()
+    # the adapter call that receives this closure (`iter.any(|x| ..)`): its receiver is where the closure's element parameters come from
+    recv_atoms = None
+    cl_locals = {place[0] for bi, si, place, rv, line in parent.assigns(include_cleanup=True)
+                 if rv["r"] == "agg" and rv.get("ak") == "closure" and rv.get("adt") == fn.id and not place[1]}
+    for bi, t in parent.calls():
+        args = t["args"]
+        for ai, x in enumerate(args):
+            p_ = op_place(x)
+            if ai >= 1 and p_ is not None and not p_[1] and (p_[0] in cl_locals or any(
+                    d[0] == "assign" and d[4]["r"] in ("use", "ref") and op_place(d[4].get("o", {"c": d[4].get("p")}) if d[4]["r"] == "use" else {"c": d[4]["p"]}) is not None
+                    and (op_place(d[4]["o"])[0] if d[4]["r"] == "use" else d[4]["p"][0]) in cl_locals for d in parent.defs().get(p_[0], ()))):
+                recv_atoms = resolve_upvars(parent, pog.of_operand(args[0], deep=deep), deep, depth + 1)
+    for a in atoms:
+        if a.kind == "param" and a.key >= 2 and recv_atoms is not None:
+            for b in recv_atoms:
+                out.add(Atom((b.kind, b.key, (b.steps + a.steps)[-MAX_STEPS:])))
+            continue
+        if a.kind == "param" and a.key == 1 and a.steps and isinstance(a.steps[0], tuple) and a.steps[0][0] == "(closure)":
+            nm = a.steps[0][2]
+            if nm in names:
+                base = pog.of_operand(site["os"][names.index(nm)], deep=deep)
+                base = resolve_upvars(parent, base, deep, depth + 1)
+                rest = a.steps[1:]
+                for b in base:
+                    out.add(Atom((b.kind, b.key, (b.steps + rest)[-MAX_STEPS:])))
+                continue
+        out.add(a)
+    return frozenset(out)
+
+
 class Program:
     def __init__(self, cfg_name="trusted", crates=None, root=None, facts_dir=None):
         self.cfg = cfg_name
